@@ -303,6 +303,13 @@ def obligations(tier, seed):
     if tier != 'thorough':
         cfgs.append(dict(grid='f2', levels=[0, 2], meta=[2, 2], target_level=2))
         cfgs.append(dict(grid='f2', levels=[0, 1, 2], meta=[2, 2], target_level=2, width=1.2))
+    # non-square meta tiles (rows and columns of the meta grid must not be mixed up)
+    cfgs.append(dict(grid='f2', levels=[1, 2], meta=[4, 2], target_level=2))
+    cfgs.append(dict(grid='f2', levels=[2], meta=[3, 2], target_level=2, width=1.2))
+    if tier == 'thorough':
+        cfgs.append(dict(grid='nonsq', levels=[1, 2], meta=[3, 2], target_level=2, width=1.2))     # ~6 min
+        cfgs.append(dict(grid='irr', levels=[0, 1], meta=[2, 4], target_level=1, width=1.0))
+        cfgs.append(dict(grid='f2', levels=[0, 1, 2], meta=[2, 3], target_level=2, width=1.2))
     # a coverage that contains a whole coarse tile whose child sticks out of it (irregular pyramid), two levels below
     cfgs.append(dict(grid='strip', levels=[0, 1, 2], meta=[1, 1], target_level=2, cov_box=[[0, 0], [0, 0], [380, 720], [500, 500]], tag='wide'))
     cfgs.append(dict(grid='strip', levels=[1, 2], meta=[1, 1], target_level=2, cov_box=[[0, 120], [0, 0], [380, 720], [500, 500]], tag='wide2'))
